@@ -4,6 +4,61 @@ COMMON_TRUST = [
     "rustc/cargo, the Rust standard library, and the crates json-syntax depends on (exercised, not modelled, unless stated)",
 ]
 
+def c14_projection(case, reply):
+    parts = reply.split(" ")
+    if reply.startswith("eq="):
+        return "%s cmpEq=%s" % (parts[0], parts[1] == "cmp=eq")
+    if len(parts) == 3 and all(x in ("lt", "eq", "gt") for x in parts):
+        ab, bc, ac = parts
+        le = lambda x: x != "gt"
+        ok = (not (le(ab) and le(bc)) or le(ac)) and (not (ab == "lt" and bc == "lt") or ac == "lt") and \
+             (not (ab == "eq" and bc == "eq") or ac == "eq")
+        return "transitive=%s" % ok
+    return reply
+
+
+def c06_projection(case, reply):
+    """everything except the internal bucket dump (the last #-segment of each per-operation reply)"""
+    flags = case.split(" ")[1] if case.startswith("obj ") and len(case.split(" ")) > 1 else ""
+    if "b" not in flags:
+        return reply
+    return " | ".join(seg.rsplit("#", 1)[0] for seg in reply.split(" | "))
+
+
+def c04_projection(case, reply):
+    """the printed text with the whitespace outside string literals removed: what the round trip
+    (and 'options only change insignificant whitespace') determines; the layout itself is C13's"""
+    if not reply or reply in ("PANIC", "skip", "bad-op", "-"):
+        return reply
+    try:
+        cps = [int(x, 16) for x in reply.split(".")]
+    except ValueError:
+        return reply
+    out, instr, esc = [], False, False
+    for c in cps:
+        if instr:
+            out.append(c)
+            if esc:
+                esc = False
+            elif c == 0x5c:
+                esc = True
+            elif c == 0x22:
+                instr = False
+        else:
+            if c in (0x20, 0x09, 0x0a, 0x0d):
+                continue
+            out.append(c)
+            if c == 0x22:
+                instr = True
+    return ".".join("%x" % c for c in out)
+
+
+def c03_projection(case, reply):
+    """accept / reject / abnormal end: which error a rejected input gets is C07's business"""
+    head = reply.split(" ")[0]
+    return head if head in ("ok", "E", "PANIC", "CRASH", "skip") else reply
+
+
 PROPS = {
     "C20": dict(
         tables=["kind"],
@@ -42,6 +97,8 @@ PROPS = {
     "C03": dict(
         tables=["parse"],
         determined=True,
+        projection_determined=lambda case, reply: c03_projection(case, reply),
+
         technique="Lean 4: termination proof of the explicit-stack machine, iteration bound 2n+2, no-panic invariant over code-map indices; runtime observation of deep nesting (depth up to 2e6) in a 256 KiB-stack child process",
         level_text=("PARTIAL proof (by nature of the property). Proved in Lean for every input, every option record: the parsing machine (one arm per arm of the Rust loop, its only recursion a tail call, "
                     "nesting kept in an explicit stack) terminates (well-founded measure accepted by the kernel), needs at most 2*|input|+2 loop iterations, consumes every character exactly once on success, "
@@ -106,6 +163,8 @@ PROPS = {
     "C04": dict(
         tables=["print", "parse"],
         determined=True,
+        projection_determined=lambda case, reply: c04_projection(case, reply),
+
         technique="Lean 4 theorem: for every value (with JSON numbers), print-option record, indentation and parse-option record, the modelled printer's output is parsed back to the same value by the modelled parser — via (i) printer = layout specification, (ii) every layout is a whitespace-interleaving of the value's tokens, (iii) every such interleaving is derivable in the RFC 8259 grammar with that value, (iv) completeness of the parser; models tied to the code by differential execution (printed bytes; strict re-parse of the real output)",
         level_text=("FULL proof on the model. C04_round_trip: for every value whose numbers are JSON numbers (NumsOk — the guard NumberBuf::new enforces), every print option record, every starting indentation and every parse option record, printWith returns a text (never panics) and parseStr maps it back to exactly that value (entry order, duplicate keys, every character of every string, every number spelling). C04_printed_is_json: the text is a JSON-text of RFC 8259 denoting the value. Proof chain, all unbounded: printer_eq_spec (two-phase printer = layout specification), spec_interleave (any layout = the value's token sequence with JSON whitespace between tokens only; C04_only_whitespace_partial), interleave_gdoc (any such interleaving is in the grammar with content v; string literals via escapeChar_gelem: every escape the printer writes is a `char` production denoting that character), parse_complete. Tie to /repo: printed bytes compared with the model for every generated value x option record, and the real output re-parsed by the real strict parser must equal the original."),
         level_note=('Trusted: Lean kernel; hand-written models of printer and parser validated by correspondence on every run; assumption NumsOk (numbers are JSON numbers).'),
@@ -118,6 +177,8 @@ PROPS = {
     "C06": dict(
         tables=[],
         determined=True,
+        projection_determined=lambda case, reply: c06_projection(case, reply),
+
         technique='Lean 4: index invariant (every bucket = the exact ascending positions of its key) proved preserved by EVERY mutating operation of the public API, each with its plain-list refinement, then lifted to every operation sequence by induction (C06_reachable); all key queries proved equal to the linear scan under the invariant; model tied to the code by exhaustive short and long random operation histories comparing results, entries, every key query and the hash-index bucket dump (cfg hook) after every operation',
         level_text=('FULL proof on the model. Model: entries list + hash-index buckets (a ghost key per bucket stands for the hash chain; a lookup finds a bucket only through the chain AND the equality test on entries[rep].key, which is what makes a stale index observable) and every Object operation written from index_map.rs / object/mod.rs, including the three removal iterators (consumed or dropped half-way: Drop finishes). Invariant Inv: bucket keys pairwise distinct; every bucket lists exactly the ascending positions of its key, representative first; every present key has a bucket. Proved: Inv holds for the empty object and any from_vec, and is preserved — with no panic and with the stated plain-list refinement and result — by push/push_entry, push_front/push_entry_front (shift_up then insert), remove_at (Indexes::remove, bucket deletion, shift_down), remove(key), remove_unique, insert (overwrite first, remove later duplicates, return old+removed), insert_front, get_or_insert_with, extend/from_iter, sort (index rebuilt), value mutation; C06_reachable lifts this to every finite sequence of operations by induction; C06_queries: under Inv contains_key, index_of, redundant_index_of, indexes_of, get/get_entries equal the linear scan of the entries and never panic. Tie to /repo: every history of length <= 3 (thorough 4) over 26 operations on 2 keys x 2 values, extensions of duplicate-rich prefixes, and long random histories over 40-200 keys (growth/rehash cycles), comparing after EVERY operation the result, the entries, every key query for every key and the bucket dump (cfg(json_syntax_verif) hook) with the model, plus a plain-Vec oracle.'),
         level_note="Trusted: Lean kernel; hashbrown RawTable + ahash behave as a hash table for a deterministic hash of the key (ghost key abstraction); Rust's stable sort_by = List.mergeSort; model validated by correspondence incl. bucket dumps.",
@@ -130,6 +191,10 @@ PROPS = {
     "C14": dict(
         tables=[],
         determined=True,
+        # the property fixes equality and the LAWS of the order, not which total order it is: what it
+        # determines of a reply is the eq flag, "cmp is Equal", and whether the triple is transitive
+        projection_determined=lambda case, reply: c14_projection(case, reply),
+
         technique="Lean 4 theorems by mutual structural induction: the derived lexicographic order on values is reflexive, antisymmetric (swap law), transitive, Equal iff equal; Object eq/cmp/hash read entries only; differential execution of ==, cmp, partial_cmp on pairs/triples with near-copies and on history pairs with a fixed-key hasher",
         level_text=("FULL proof on the model. For the model of the derived Ord on Value/Entry/Object (variant rank, false<true, numbers and strings by bytes, arrays/objects lexicographic with proper prefix first, entries by key then value): "
                     "C14_refl, C14_eq_iff (Equal exactly when equal), C14_antisymm (cmp b a = swap (cmp a b): exactly one of <,=,> holds), C14_trans and C14_le_trans, for ALL pairs and triples of arbitrarily nested values; "
